@@ -27,6 +27,8 @@ pub fn core_alphabet() -> Vec<BOp> {
         BOp::SetVersion,
         BOp::Continue,
         BOp::Reload,
+        BOp::Line, // outside a block it lands in types_global_values, right where the type declarations live
+        BOp::NoLine,
     ]
 }
 
